@@ -1,13 +1,15 @@
 //! C17 — Merkle proofs verify only true membership; the distributor claims each index once.
 //!
 //! Part 1 (stateless, function level): every tree with N = 1..=9 (quick) / 1..=33 (thorough)
-//! distinct leaves is built HERE with the `sha2` / `sha3` crates in three shapes
+//! distinct leaves is built HERE with the `sha2` / `sha3` crates in four shapes
 //!   * sorted-carry : adjacent pairs hashed commutatively, an odd node is carried up unhashed
 //!                    (proof lengths differ inside one tree),
 //!   * sorted-oz    : the array layout of OpenZeppelin's merkle-tree library (node i is the
 //!                    commutative hash of nodes 2i+1, 2i+2; leaves at different depths),
 //!   * positional   : ordered pair hashing, odd levels padded with one fixed filler node, so that
 //!                    index = position,
+//!   * positional-dup: ordered pair hashing, odd levels padded with a copy of their last node (a
+//!                    wrong index can then legitimately verify; the reference decides),
 //! and for every leaf the honest proof plus every single-element corruption of
 //! (leaf, proof, index, root) is handed to the library's `Verifier::<H>::verify` /
 //! `verify_with_index` with the library's SHA-256 and Keccak-256 hashers (host functions: they are
@@ -68,6 +70,9 @@ enum Form {
     SortedCarry,
     SortedOz,
     Positional,
+    /// positional, odd levels padded by duplicating their last node (the last leaf then also
+    /// verifies under the index of its copy: the reference recognises such inputs as valid)
+    PositionalDup,
 }
 
 impl Form {
@@ -76,10 +81,11 @@ impl Form {
             Form::SortedCarry => "sorted-carry",
             Form::SortedOz => "sorted-oz",
             Form::Positional => "positional",
+            Form::PositionalDup => "positional-dup",
         }
     }
     fn positional(self) -> bool {
-        self == Form::Positional
+        matches!(self, Form::Positional | Form::PositionalDup)
     }
 }
 
@@ -140,22 +146,23 @@ fn build(hk: Hk, form: Form, leaves: &[H32]) -> Built {
     assert!(n >= 1);
     let mut nodes: Vec<H32> = vec![];
     match form {
-        Form::SortedCarry | Form::Positional => {
+        Form::SortedCarry | Form::Positional | Form::PositionalDup => {
             let mut levels: Vec<Vec<H32>> = vec![leaves.to_vec()];
             loop {
                 let cur = levels.last_mut().unwrap();
                 if cur.len() == 1 {
                     break;
                 }
-                if form == Form::Positional && cur.len() % 2 == 1 {
-                    cur.push(filler(hk));
+                if form.positional() && cur.len() % 2 == 1 {
+                    let pad = if form == Form::Positional { filler(hk) } else { *cur.last().unwrap() };
+                    cur.push(pad);
                 }
                 let cur = cur.clone();
                 let mut next = vec![];
                 let mut k = 0;
                 while k < cur.len() {
                     if k + 1 < cur.len() {
-                        next.push(if form == Form::Positional { hx(hk, &[&cur[k], &cur[k + 1]]) } else { cpair(hk, &cur[k], &cur[k + 1]) });
+                        next.push(if form.positional() { hx(hk, &[&cur[k], &cur[k + 1]]) } else { cpair(hk, &cur[k], &cur[k + 1]) });
                     } else {
                         next.push(cur[k]); // odd node carried up unhashed
                     }
@@ -577,7 +584,7 @@ fn all_bits() -> Vec<u16> {
 fn part1(tier: Tier, r: &mut Runner) {
     use rayon::prelude::*;
     let hks = [Hk::Sha256, Hk::Keccak256];
-    let forms = [Form::SortedCarry, Form::SortedOz, Form::Positional];
+    let forms = [Form::SortedCarry, Form::SortedOz, Form::Positional, Form::PositionalDup];
     if !r.exploring() {
         if let Some(case) = r.replay_case(WORLD1) {
             replay_case1(&case);
@@ -628,7 +635,7 @@ fn part1(tier: Tier, r: &mut Runner) {
     rep.evaluations += evals;
     rep.distinct_nontrivial += distinct;
     println!(
-        "enumeration {WORLD1}: trees={} (N=1..={max_n} x {{sha256,keccak256}} x {{sorted-carry,sorted-oz,positional}}) leaves={} library-calls={} distinct-inputs={} wall={:.1}s",
+        "enumeration {WORLD1}: trees={} (N=1..={max_n} x {{sha256,keccak256}} x {{sorted-carry,sorted-oz,positional,positional-dup}}) leaves={} library-calls={} distinct-inputs={} wall={:.1}s",
         trees.len(),
         tasks.len(),
         evals,
@@ -687,6 +694,7 @@ fn part1(tier: Tier, r: &mut Runner) {
         (Hk::Keccak256, Form::SortedOz, 6, 0, Corr::Swap(0)),
         (Hk::Sha256, Form::Positional, 5, 4, Corr::Index(5)),
         (Hk::Keccak256, Form::Positional, 7, 3, Corr::IndexOob(8 + 3)),
+        (Hk::Sha256, Form::PositionalDup, 5, 4, Corr::Index(5)),
     ] {
         let t = tree(hk, form, n);
         let inp = mutate(&t, i, &c, &roots);
@@ -715,6 +723,7 @@ fn replay_case1(case: &str) {
         "sorted-carry" => Form::SortedCarry,
         "sorted-oz" => Form::SortedOz,
         "positional" => Form::Positional,
+        "positional-dup" => Form::PositionalDup,
         _ => {
             eprintln!("bad tree shape in {case}");
             std::process::exit(2)
@@ -832,7 +841,12 @@ enum Op {
     /// claim(index, receiver and amount of leaf `of` = (tree, leaf) [amount varied], proof)
     Claim { index: u32, of: (usize, usize), amt: Amt, proof: Pf },
     SetRoot(usize),
+    /// one jump of the ledger per history, longer than the library's TTL extension of a claimed
+    /// flag (30 days of ledgers) and shorter than the environment's minimum persistent lifetime
+    Advance(u32),
 }
+
+const JUMP: u32 = 600_000;
 
 #[derive(Clone, Debug, PartialEq, Eq, Hash)]
 struct Obs {
@@ -845,6 +859,7 @@ struct Obs {
 struct Model {
     root: Option<usize>,
     obs: Obs,
+    jumped: bool,
 }
 
 struct Dist {
@@ -862,7 +877,7 @@ struct Inst {
 
 impl Dist {
     fn resolve(&self, i: &Inst, op: &Op) -> (u32, usize, i128, Vec<H32>) {
-        let Op::Claim { index, of, amt, proof } = op else { unreachable!() };
+        let Op::Claim { index, of, amt, proof } = op else { unreachable!("resolve is for claims") };
         let (_, r, a) = i.trees[of.0].spec[of.1];
         let amount = match amt {
             Amt::Same => a,
@@ -889,6 +904,10 @@ impl Dist {
     fn exec(&self, i: &Inst, op: &Op) -> bool {
         let e = &i.e;
         match op {
+            Op::Advance(k) => {
+                envx::advance(e, *k);
+                true
+            }
             Op::SetRoot(t) => {
                 let args: SVec<Val> = (BytesN::from_array(e, &i.trees[*t].b.root),).into_val(e);
                 call_mocked(e, &i.c, "set_root", args).is_ok()
@@ -1002,10 +1021,10 @@ impl World for Dist {
         };
         let inst = Inst { e, c, token, recv, trees };
         let obs = self.observe(&inst).expect("observe seed");
-        (inst, Model { root, obs })
+        (inst, Model { root, obs, jumped: false })
     }
 
-    fn ops(&self, i: &Inst, _m: &Model, _d: usize) -> Vec<Op> {
+    fn ops(&self, i: &Inst, m: &Model, _d: usize) -> Vec<Op> {
         let mut v = vec![];
         if self.fl != Fl::Example {
             for t in 0..i.trees.len() {
@@ -1044,12 +1063,20 @@ impl World for Dist {
                 }
             }
         }
+        if !m.jumped {
+            v.push(Op::Advance(JUMP));
+        }
         v
+    }
+
+    fn atomic_on_refusal(&self, op: &Op) -> bool {
+        !matches!(op, Op::Advance(_))
     }
 
     fn kind(&self, op: &Op) -> String {
         match op {
             Op::SetRoot(_) => "set_root".into(),
+            Op::Advance(_) => "advance".into(),
             Op::Claim { index, of, amt, proof } => {
                 // classification by shape only (the verdict is the reference recomputation's)
                 let nat = leaf_specs(self.fl.positional())[of.0][of.1].0;
@@ -1076,6 +1103,7 @@ impl World for Dist {
         // check compares the model digests of merged histories)
         let ok = self.exec(i, op);
         match op {
+            Op::Advance(_) => m.jumped = true,
             Op::SetRoot(t) => {
                 if ok {
                     m.root = Some(*t);
@@ -1142,8 +1170,10 @@ impl World for Dist {
             }
         }
         let post = self.observe(i)?;
-        cx.stats.count("getter-comparisons", (NI as u64 + if i.token.is_some() { NR as u64 + 1 } else { 0 }));
-        if ok {
+        cx.stats.count("getter-comparisons", NI as u64 + if i.token.is_some() { NR as u64 + 1 } else { 0 });
+        if matches!(op, Op::Advance(_)) {
+            ensure!(post == m.obs, "claimed-never-reverts", "after {:?}: contract shows {:?}, before it was {:?}", op, post, m.obs);
+        } else if ok {
             ensure!(
                 post == m.obs,
                 "claimed-exactly-this-index-paid-exactly-once",
@@ -1159,11 +1189,12 @@ impl World for Dist {
     }
 
     fn key(&self, i: &Inst) -> [u8; 32] {
-        envx::storage_digest(&i.e, false)
+        // with the ledger: the jump must lead to states of its own
+        envx::storage_digest(&i.e, true)
     }
 
     fn model_digest(&self, m: &Model) -> u64 {
-        vh::engine::dig(&(m.root, &m.obs))
+        vh::engine::dig(&(m.root, &m.obs, m.jumped))
     }
 }
 
@@ -1171,17 +1202,17 @@ fn main() {
     main_with(
         "C17",
         "model_checking",
-        "(1) stateless exhaustive enumeration: all trees of N=1..=9 (quick) / 1..=33 (thorough) distinct leaves built in the harness with sha2/sha3 in three shapes (sorted pairs with odd node carried up; sorted pairs in the OpenZeppelin merkle-tree array layout; positional with filler padding), x {SHA-256, Keccak-256} library hashers; for every leaf: honest proof -> Verifier::verify / verify_with_index must return true; every single-element corruption (leaf -> every other leaf / next leaf / foreign value / every inner node / each of 256 bit flips; every proof element -> each of 256 bit flips / every other node of the tree / foreign; every adjacent swap; every prefix truncation and single removal; extension at front/back by every node; every other index < 2^len, indices >= 2^len; proofs of 32/33 elements; root -> root of every other tree / each of 256 bit flips / every other node) must return false or fail unless the exact reference fold reproduces the root (then skipped and counted). (2) level-BFS over histories of claim(index 0..=3[4], receiver+amount of any leaf of three trees, amount same/+1[/0], proof of any leaf of any tree / empty / truncated / extended) and set_root(T0|T1|T2) on the real fungible-merkle-airdrop example (4 seeds: 3 roots, 1 under-funded) and 4 wrapper contracts over MerkleDistributor {sorted,indexed} x {sha256,keccak256}; after every step is_claimed(0..=4) and all token balances are compared with the model; non-trivial = distinct storage state reached through >=1 accepted call, plus distinct verifier inputs of (1)",
+        "(1) stateless exhaustive enumeration: all trees of N=1..=9 (quick) / 1..=33 (thorough) distinct leaves built in the harness with sha2/sha3 in four shapes (sorted pairs with odd node carried up; sorted pairs in the OpenZeppelin merkle-tree array layout; positional with filler padding; positional with duplicate-last padding), x {SHA-256, Keccak-256} library hashers; for every leaf: honest proof -> Verifier::verify / verify_with_index must return true; every single-element corruption (leaf -> every other leaf / next leaf / foreign value / every inner node / each of 256 bit flips; every proof element -> each of 256 bit flips / every other node of the tree / foreign; every adjacent swap; every prefix truncation and single removal; extension at front/back by every node; every other index < 2^len, indices >= 2^len; proofs of 32/33 elements; root -> root of every other tree / each of 256 bit flips / every other node) must return false or fail unless the exact reference fold reproduces the root (then skipped and counted). (2) level-BFS over histories of claim(index 0..=3[4], receiver+amount of any leaf of three trees, amount same/+1[/0], proof of any leaf of any tree / empty / truncated / extended) and set_root(T0|T1|T2) and one ledger jump of 600000 per history on the real fungible-merkle-airdrop example (4 seeds: 3 roots, 1 under-funded) and 4 wrapper contracts over MerkleDistributor {sorted,indexed} x {sha256,keccak256}; after every step is_claimed(0..=4) and all token balances are compared with the model; non-trivial = distinct storage state reached through >=1 accepted call, plus distinct verifier inputs of (1)",
         |tier: Tier, r: &mut Runner| {
             let th = tier == Tier::Thorough;
             part1(tier, r);
-            let b = Bounds::new(tier.pick(5, 7), tier.pick(30, 400));
+            let b = Bounds::new(tier.pick(7, 8), tier.pick(30, 400));
             for fl in [Fl::Example, Fl::SortedSha, Fl::SortedKeccak, Fl::IndexedSha, Fl::IndexedKeccak] {
                 r.world(&Dist { fl, thorough: th }, &b);
             }
             if let Some(rep) = r.report() {
                 rep.require(
-                    &["claim.own-proof", "set_root"],
+                    &["claim.own-proof", "set_root", "advance"],
                     &["claim.own-proof", "claim.other-proof", "claim.wrong-index", "claim.wrong-amount"],
                 );
                 rep.require_counter(&[
